@@ -71,6 +71,62 @@ class FlowTranslator:
                     raise Unsupported(type(n).__name__)
             if isinstance(n, (ast.FunctionDef, ast.AsyncFunctionDef, ast.ClassDef)) and n is not func:
                 raise Unsupported("nested definition")
+        self._alias_check()
+
+    def _alias_check(self) -> None:
+        """Fail closed on stores through a possible alias. The semantics is single-owner: after `v = <expression that can hand
+        out a reference into another object>` (a plain name, attribute or subscript of a local, the result of a method called on a
+        local, or memoryview(..)), a later store INTO v (v[i] = e, v[a:b] = e, v.a = e, augmented forms) would, in Python, also change
+        the object v came from; the desugared store would not. Such a function is refused rather than mistranslated."""
+        tainted: t.Dict[str, str] = {}
+
+        def reaches_into_local(e: ast.AST) -> t.Optional[str]:
+            if isinstance(e, ast.Await):
+                return reaches_into_local(e.value)
+            if isinstance(e, ast.Name) and e.id in self.locals:
+                return f"the local {e.id}"
+            if isinstance(e, (ast.Attribute, ast.Subscript)):
+                root = e
+                while isinstance(root, (ast.Attribute, ast.Subscript)):
+                    root = root.value
+                if isinstance(root, ast.Call):
+                    return reaches_into_local(root)
+                if isinstance(root, ast.Name) and root.id in self.locals:
+                    # a slice of bytes/list copies, but a slice of a memoryview does not: judged by the root below
+                    return f"{ast.unparse(e)[:40]}"
+                return None
+            if isinstance(e, ast.Call):
+                if isinstance(e.func, ast.Name) and e.func.id == "memoryview":
+                    return "memoryview(..)"
+                if isinstance(e.func, ast.Attribute):
+                    root = e.func.value
+                    while isinstance(root, (ast.Attribute, ast.Subscript)):
+                        root = root.value
+                    if isinstance(root, ast.Call):
+                        return reaches_into_local(root)
+                    if isinstance(root, ast.Name) and root.id in self.locals:
+                        return f"the result of {ast.unparse(e.func)[:40]}(..)"
+            return None
+
+        for n in ast.walk(self.func):
+            if isinstance(n, ast.Assign) and len(n.targets) == 1 and isinstance(n.targets[0], ast.Name):
+                why = reaches_into_local(n.value)
+                v = n.targets[0].id
+                if why is not None and not (isinstance(n.value, ast.Subscript) and isinstance(n.value.slice, ast.Slice) and v not in tainted
+                                            and not (isinstance(n.value.value, ast.Name) and n.value.value.id in tainted)):
+                    tainted.setdefault(v, why)
+        if not tainted:
+            return
+        for n in ast.walk(self.func):
+            tg = None
+            if isinstance(n, ast.Assign) and len(n.targets) == 1:
+                tg = n.targets[0]
+            elif isinstance(n, (ast.AugAssign, ast.AnnAssign)):
+                tg = n.target
+            if isinstance(tg, (ast.Subscript, ast.Attribute)):
+                root = tg.value
+                if isinstance(root, ast.Name) and root.id in tainted and root.id != "self":
+                    raise Unsupported(f"store into {root.id}, which may alias {tainted[root.id]}")
 
     def _inside_raise(self, node) -> bool:
         for r in ast.walk(self.func):
@@ -329,5 +385,15 @@ def translate(k: Flow) -> str:
     tr = FlowTranslator(func)
     body = tr.block(func.body, 2)
     kind = "async def" if isinstance(func, ast.AsyncFunctionDef) else "def"
-    return (f"(* {k.file} :: {kind} {k.func}({', '.join(tr.params)}) : whole body *)\n"
+    text = (f"(* {k.file} :: {kind} {k.func}({', '.join(tr.params)}) : whole body *)\n"
             f"Definition {k.name} : pfun :=\n  {{| pf_params := [{'; '.join(_s(p) for p in tr.params)}];\n     pf_body := {body} |}}.\n")
+    # default values of the parameters (evaluated once, at definition time, in Python): regenerated next to the body so that a
+    # tie or a theorem can speak about them; a function without defaults gets no such definition
+    a = func.args
+    pos = a.args
+    dfl = [(p.arg, d) for p, d in zip(pos[len(pos) - len(a.defaults):], a.defaults)]
+    dfl += [(p.arg, d) for p, d in zip(a.kwonlyargs, a.kw_defaults) if d is not None]
+    if dfl:
+        items = "; ".join(f"({_s(n)}, {tr.e(d)})" for n, d in dfl)
+        text += f"Definition {k.name}_defaults : list (string * pexp) := [{items}].\n"
+    return text
